@@ -294,6 +294,13 @@ def run(model, rep, tier):
                   "after splitting a full child the code descends without searching this node again: when the key equals the median that just moved up, it is inserted a second time below "
                   "(duplicate key, len() off by one, lookup returns the old value)", stmt="research-after-split")
     # ---------------------------------------------------------------- R-19.6
+    def _none_resets(fn_):
+        return {src(t_) for st in fn_.node.body if isinstance(st, ast.Assign) and isinstance(st.value, ast.Constant) and st.value.value is None for t_ in st.targets}
+    nx, pv = model.func("dns.btree.Cursor.next"), model.func("dns.btree.Cursor.prev")
+    rn, rp = _none_resets(nx), _none_resets(pv)
+    rep.check(rn == rp and bool(rn), "R-19.6", "dns.btree.Cursor.next ~ prev", where(pv, pv.node), f"next() and prev() clear the same state ({sorted(rn)}) before they move",
+              f"next() clears {sorted(rn)} before moving but prev() clears {sorted(rp)}: a cursor that reached a boundary through the other one keeps a stale parking key and, after a mutation, re-seeks to it "
+              "(elements skipped or returned after None)", stmt="step-resets-agree")
     for (qn, val) in (("dns.btree.Cursor.next", True), ("dns.btree.Cursor.prev", False)):
         fc = model.func(qn)
         cc = CFG(fc.node, implicit_exc=False)
@@ -536,6 +543,8 @@ def _root_owned(cfg, at):
 
 
 WITNESSES = [
+    {"id": "c19-prev-keeps-parking-key", "rule": "R-19.6", "file": "dns/btree.py", "expect": "fires",
+     "old": "        \"\"\"Get the previous element, or return None if on the left boundary.\"\"\"\n        self._maybe_unpark()\n        self.parking_key = None\n", "new": "        \"\"\"Get the previous element, or return None if on the left boundary.\"\"\"\n        self._maybe_unpark()\n"},
     {"id": "c19-original-key-truth-tested", "rule": "R-19.10", "file": "dns/btree.py", "expect": "fires",
      "old": "        if original_key is not None:\n            node, i = self._get_node(original_key)", "new": "        if original_key:\n            node, i = self._get_node(original_key)"},
     {"id": "c19-seek-last-keeps-parents", "rule": "R-19.9", "file": "dns/btree.py", "expect": "fires",
